@@ -84,6 +84,10 @@ def run(ctx, rep):
     rep.floor("C05.promotion cells", n, 200)
 
     operator_reaches_the_interpreter(F, rep)
+    # ... and reaches it with the operands as written: the parser's infix callback builds `a op b` from its left and right operand, each from its own
+    # (a parser-level rewrite such as `x + 1 + 2 => x + 3` performs other operations than the ones written: another rounding, a masked overflow) - C15's clause
+    from props import C15 as _c15
+    _c15.infix_operands_keep_their_sides(F, rep, rule="C05.operands-as-written")
 
     # ---- (b) -------------------------------------------------------------------------------------------
     zero = {"Int": Int(0, "i32"), "BigInt": Int(0, "i128"), "Byte": Int(0, "u8"), "Float": Flt(0.0)}
